@@ -820,6 +820,10 @@ class W1World(World):
 
     def do_validate_graph(self, s):
         g = s['g']
+        from .pgmodel import JSON_PROPERTY_NAMES as JN
+        for k in self.model.gnodes(g):
+            if any(n in self.model.nodes[k] and not isinstance(self.model.nodes[k][n], str) for n in JN):
+                raise SkipStep()      # a list left by a 'combine' merge under a JSON-typed name: outside the domain
         return self._read(s, lambda b: self.pg(b, g).validate_graph(), lambda: self.model.validate_graph(g))
 
     def do_cast_graph(self, s):
